@@ -192,6 +192,11 @@ func CheckProperty(opt Options) int {
 				continue
 			}
 			ok, why := compareWitness(ref.wit, nr)
+			if !ok && nr != nil && len(nr.Failed) > 0 && len(ref.job.Violations) > 0 {
+				// the witness inputs happen to hit a violation the solver
+				// reported for this job as well
+				continue
+			}
 			if ok {
 				witnessOK++
 			} else {
@@ -244,6 +249,9 @@ func CheckProperty(opt Options) int {
 				path := saveReplay(spec.ID, v)
 				v.Replay = path
 				violations++
+				if violations > 8 {
+					continue
+				}
 				lines = append(lines, fmt.Sprintf("VIOLATION property=%s replay=%s", spec.ID, path))
 				lines = append(lines, fmt.Sprintf("  harness=%s case=[%s] assertion=%s kind=%s site=%s native=%s", v.Harness, v.Params, v.ID, v.Kind, v.Site, v.Confirm))
 			}
